@@ -284,7 +284,9 @@ def run(ctx):
                 "parameter perturbed by 1e-9..1 relative; all 64 subsets of the six parameters for missing information; degree "
                 "centre/radius/resolution on projected CRSs and malformed values for the correspondence only; dump/load of 1..6 "
                 "areas per string/list/file/stream/deprecated alias with region selection, ids / descriptions / an added proj_id entry "
-                "drawn from YAML-hostile and empty / falsy-looking strings ('', '0', 'None', ' ', 'False', '0.0', '[]').  A case is non-trivial when the implementation has to "
+                "drawn from YAML-hostile and empty / falsy-looking strings ('', '0', 'None', ' ', 'False', '0.0', '[]'); histories on one "
+                "file path in one process (dump = append, load whole / by id / a missing id, overwrite, remove, via str / pathlib / list "
+                "paths and load_area / parse_area_file), every load compared with the tracked file content and with loading the file's text.  A case is non-trivial when the implementation has to "
                 "derive extent or shape (not extent+shape given in projection units) or loads at least one area; distinct = "
                 "distinct argument sets")
     creates = []      # (case dict for the driver, meta dict)
@@ -504,7 +506,40 @@ def run(ctx):
             regions = regions + ["no_such_area"]
         yamls.append({"areas": areas, "mode": mode, "regions": regions, "samples": samples})
 
-    obs = ctx.impl("c13", {"create": [c for c, _ in creates], "yaml": yamls}, timeout=3000)
+    # ---- 6. histories on ONE file path in one process: dump (appends), load (whole file / by id / a missing id), dump another
+    # area to the same path, load again, overwrite the file with other content, load again, remove the file, load again
+    hists = []
+    for i in range(ctx.n(12, 80)):
+        n = r.randint(3, 5)
+        ids = r.sample(range(1000), n)
+        areas = []
+        for j in range(n):
+            name = ynames[(3 * i + j) % len(ynames)]
+            ext, shape = gen_grid(r, name, nice=r.random() < 0.3)
+            areas.append({"id": r.choice(["h%d", "hist_%d", "%d"]) % ids[j], "description": r.choice(words + falsy), "crs": (POOL.get(name) or YAML_EXTRA[name])[0],
+                          "extent": ext, "shape": list(shape), "np_extent": False, "name": name})
+        aid = [a["id"] for a in areas]
+        via = lambda: r.choice(["load_area", "load_area", "parse_area_file"])
+        steps = [{"op": "dump", "k": 0, "pathlib": r.random() < 0.3}, {"op": "load", "regions": [], "via": via()}]
+        if r.random() < 0.7:
+            steps.append({"op": "load", "regions": [aid[0]], "via": via()})
+        if r.random() < 0.5:
+            steps.append({"op": "load", "regions": [aid[1]], "via": via()})          # not there yet
+        steps += [{"op": "dump", "k": 1, "pathlib": r.random() < 0.3}, {"op": "load", "regions": [], "via": via()},
+                  {"op": "load", "regions": [aid[1]], "via": via()}]
+        if r.random() < 0.6:
+            steps += [{"op": "dump", "k": 2}, {"op": "load", "regions": r.sample(aid[:3], r.randint(1, 3)), "via": via()}]
+        ks = r.sample(range(n), r.randint(1, n)) if r.random() < 0.7 else [n - 1]
+        steps += [{"op": "overwrite", "ks": ks}, {"op": "load", "regions": [], "via": via()},
+                  {"op": "load", "regions": [aid[0]], "via": via()}]
+        if r.random() < 0.5:
+            steps += [{"op": "remove"}, {"op": "load", "regions": [], "via": via()}]
+            if r.random() < 0.5:
+                steps += [{"op": "dump", "k": n - 1}, {"op": "load", "regions": [], "via": via()}]
+        hists.append({"areas": areas, "steps": steps, "path_kind": ["str", "pathlib", "list"][i % 3],
+                      "filename": r.choice(["areas.yaml", "my areas.yml", "a.def"])})
+
+    obs = ctx.impl("c13", {"create": [c for c, _ in creates], "yaml": yamls, "history": hists}, timeout=3000)
 
     # =============================================================================== property oracle: create
     ref = {}
@@ -699,6 +734,76 @@ def run(ctx):
                                                             entries[k][3], coq_outcome(b)))
                 load_lines.append(("(%s, %s, %s, Ok [%s])" % (file_txt, regs, facts_txt, "; ".join(lo)), yc))
 
+    # =============================================================================== property oracle: file-path histories
+    for hi, (hc, ho) in enumerate(zip(hists, obs.get("history", []))):
+        yi = 100000 + hi
+        content = None          # the areas (indices) the file holds now, None = no file
+        last = "none"
+        ids = [a["id"] for a in hc["areas"]]
+        entries = []
+        for k, (a, f, orig, parsed) in enumerate(zip(hc["areas"], ho["facts"], ho["orig"], ho["parsed"])):
+            entries.append(yaml_texts(yi, k, a, f, orig, parsed, parsed))
+        for si, (st, so) in enumerate(zip(hc["steps"], ho["steps"])):
+            if st["op"] == "dump":
+                content = (content or []) + [st["k"]]
+                last = "append"
+                continue
+            if st["op"] == "overwrite":
+                content, last = list(st["ks"]), "overwrite"
+                continue
+            if st["op"] == "remove":
+                content, last = None, "remove"
+                continue
+            regions = st["regions"]
+            ctx.count("history_load_after_%s" % last)
+            replay = {"oracle": "history", "case": hc, "step": si, "impl": so}
+            ctx.case(("hist", json.dumps(hc, sort_keys=True), si), sample={"history": [x["op"] + (":" + ",".join(x.get("regions", [])) if x["op"] == "load" else "") for x in hc["steps"][:si + 1]],
+                                                                           "impl": [b.get("id") for b in so["path"].get("loaded", [])] or so["path"].get("error")})
+            key = "C13.yaml.history.load_after_%s.%s" % (last, "by_id" if regions else "whole_file")
+            got = so["path"]
+            why = None
+            if content is None:
+                if "error" not in got:
+                    why = "the file does not exist but the load returns %s" % [b.get("id") for b in got["loaded"]]
+            else:
+                have = [ids[k] for k in content]
+                want = regions or have
+                if any(x not in have for x in regions):
+                    if not ("error" in got and got["error"]["exc"] == "AreaNotFound"):
+                        why = "region %s is not in the file (areas %s) but the load gives %s" % (regions, have, got.get("error") or [b.get("id") for b in got["loaded"]])
+                elif "error" in got:
+                    why = "the file holds areas %s but loading %s raises %s" % (have, regions or "all", got["error"])
+                elif [b.get("id") for b in got["loaded"]] != want:
+                    why = "the file holds areas %s; loading %s returns %s" % (have, regions or "all", [b.get("id") for b in got["loaded"]])
+                elif so["fresh"] is None or got != so["fresh"]:
+                    why = "the load through the path differs from loading the file's current text: %s vs %s" % (
+                        [(b.get("id"), b.get("shape"), b.get("extent")) for b in got["loaded"]], so["fresh"] and [(b.get("id"), b.get("shape"), b.get("extent")) for b in so["fresh"].get("loaded", [])])
+                else:
+                    for wid, b in zip(want, got["loaded"]):
+                        a, orig, f = hc["areas"][ids.index(wid)], ho["orig"][ids.index(wid)], ho["facts"][ids.index(wid)]
+                        rewrite = f["to_epsg"] is None and f["dict_units"] not in (None, "m")
+                        if b.get("kind") != "area" or b["description"] != a["description"] or b["shape"] != a["shape"] or (not rewrite and b["extent"] != orig["extent"]):
+                            why = "area %r comes back as %s" % (wid, {k_: b.get(k_) for k_ in ("kind", "description", "shape", "extent")})
+                            break
+            if why:
+                ctx.add_failure(key, "history %s on one path (%s): %s" % ([x["op"] + (":" + ",".join(x.get("regions", [])) if x["op"] == "load" else "") for x in hc["steps"][:si + 1]], hc["path_kind"], why), replay)
+            # dict-level correspondence: the model's load_file on the CURRENT content
+            if content is not None and all(entries[k] is not None for k in content) and len(set(content)) == len(content):
+                file_txt = "[" + "; ".join(entries[k][1] for k in content) + "]"
+                facts_txt = "[" + "; ".join(entries[k][2] for k in content) + "]"
+                regs = "[" + "; ".join(str(tok(x)) for x in regions) + "]"
+                if "error" in got:
+                    obs_txt = "Err"
+                else:
+                    lo = []
+                    for b in got["loaded"]:
+                        k = ids.index(b["id"]) if b.get("id") in ids else 0
+                        lo.append("(mk_loaded %d %d %s %s %s)" % (tok(b.get("id")), tok(b.get("description")),
+                                                                "None" if b.get("proj_id") is None else "(Some %d)" % tok(b["proj_id"]),
+                                                                entries[k][3], coq_outcome(b)))
+                    obs_txt = "Ok [%s]" % "; ".join(lo)
+                load_lines.append(("(%s, %s, %s, %s)" % (file_txt, regs, facts_txt, obs_txt), {"areas": hc["areas"], "regions": regions, "history_step": si}))
+
     # =============================================================================== correspondence
     texts = []
     for i in range(0, len(coq_lines), 400):
@@ -803,6 +908,9 @@ def replay(ctx, data):
     """Re-run one recorded failing case on the implementation; True iff the observation that violated the property is unchanged."""
     case = data.get("case", {})
     old = case.get("impl", {})
+    if case.get("oracle") == "history":
+        o = ctx.impl("c13", {"history": [case["case"]]})["history"][0]["steps"][case["step"]]
+        return o.get("path") == old.get("path")
     if case.get("oracle") == "yaml":
         o = ctx.impl("c13", {"yaml": [case["case"]]})["yaml"][0]
         return o.get("error") == old.get("error") and o.get("loaded") == old.get("loaded")
